@@ -12,8 +12,8 @@
 //!   c17 files <out>                              head x body x tail [FileAt], all
 //!   c17 long <samples> <maxchars> <out>          unit^count + window [LongAt]: sampled, texts of at most maxchars characters
 //!   c17 long-one <idx>                           print the record of one long text (replay)
-//! Set C17_STUB=nonl to replace the tokenizer's positions by a deliberately wrong line counter
-//! (negative control: TLC must reject).
+//! Set C17_STUB=line1 to replace the tokenizer's lines by a deliberately wrong line counter, C17_STUB=bom to drop a
+//! leading byte-order mark before the tokenizer sees the text (negative controls: TLC must reject).
 
 use rand::{Rng, SeedableRng};
 use serde_json::{json, Value};
@@ -243,6 +243,8 @@ fn selfcheck() {
 
 fn tok_records(text: &str) -> Vec<Value> {
     let stub = std::env::var("C17_STUB").ok();
+    // negative control "bom": a tokenizer that drops a leading byte-order mark before lexing
+    let text = if stub.as_deref() == Some("bom") { text.strip_prefix('\u{feff}').unwrap_or(text) } else { text };
     let toks = string_to_tokens(0, text);
     let mut out = Vec::new();
     for pt in toks.iter() {
@@ -307,7 +309,8 @@ fn record_long(idx: usize) -> Value {
     js.sort();
     js.dedup();
     let samples: Vec<Value> = js.iter().map(|j| json!({"j": *j, "t": all[*j - 1].clone()})).collect();
-    json!({"input": abs(&text), "idx": idx, "ntoks": n, "first": first,
+    let (u, c, _) = long_parts(idx);
+    json!({"input": abs(&text), "idx": idx, "ntoks": n, "first": first, "unit": abs(u), "count": c,
            "toks": all[first - 1..].to_vec(), "samples": samples})
 }
 
